@@ -4,7 +4,7 @@ import ChythonModel.Spec.QuerySemantics
 # C08 — helper lemmas (clause-by-clause equivalence of the model's early-return tests with the documented predicates)
 -/
 namespace ChythonModel.Proofs.C08
-open ChythonModel.Model.Query ChythonModel.Spec.Query
+open ChythonModel.Model ChythonModel.Model.Query ChythonModel.Spec.Query ChythonModel.Gen.Query
 
 theorem tupleRejects_false (c : List Nat) (v : Nat) : tupleRejects c v = false ↔ Allowed c v := by
   unfold tupleRejects Allowed
@@ -84,5 +84,97 @@ theorem extendedTail_true (q : QAtom) (iso : Option Nat) (a : MAtom) (hq : QWF q
       simp [h1, h2, this]
   · have : (q.charge != a.charge) = true := by simp [h1]
     simp [h1, this]
+
+theorem mem_insertSorted (x : Nat) (l : List Nat) (o : Nat) : o ∈ insertSorted x l ↔ o = x ∨ o ∈ l := by
+  induction l with
+  | nil => simp [insertSorted]
+  | cons y ys ih =>
+    unfold insertSorted
+    split
+    · simp
+    · split
+      · rename_i hxy; simp at hxy; subst hxy; simp
+      · simp [ih]; exact or_left_comm
+
+theorem mem_sortDedup (l : List Nat) (o : Nat) : o ∈ sortDedup l ↔ o ∈ l := by
+  unfold sortDedup
+  induction l with
+  | nil => simp
+  | cons x xs ih => simp only [List.foldr_cons, mem_insertSorted, ih, List.mem_cons]
+
+theorem mem_map_toNat_zero (l : List Int) (h : 0 ∈ l.map Int.toNat) : ∃ x ∈ l, x ≤ 0 := by
+  simp only [List.mem_map] at h
+  obtain ⟨x, hx, hz⟩ := h
+  exact ⟨x, hx, by omega⟩
+
+theorem mem_insertSortedI (x : Int) (l : List Int) (o : Int) : o ∈ insertSortedI x l ↔ o = x ∨ o ∈ l := by
+  induction l with
+  | nil => simp [insertSortedI]
+  | cons y ys ih =>
+    unfold insertSortedI
+    split
+    · simp
+    · simp [ih]; exact or_left_comm
+
+theorem mem_sortI (l : List Int) (o : Int) : o ∈ sortI l ↔ o ∈ l := by
+  unfold sortI
+  induction l with
+  | nil => simp
+  | cons x xs ih => simp [List.foldr, mem_insertSortedI, ih]
+
+/-- the `ring_sizes` setter never stores the no-ring mark together with sizes -/
+theorem ring_setter_wf (v : IntOrList) (rs : List Nat) (h : intOrListRing v = .ok rs) : rs = [0] ∨ 0 ∉ rs := by
+  cases v with
+  | int i =>
+    simp only [intOrListRing, validateRingInt] at h
+    split at h
+    · cases h
+    · cases h
+      rename_i hc
+      by_cases hi : i = 0
+      · subst hi; left; rfl
+      · right
+        simp only [Bool.and_eq_true, decide_eq_true_eq, bne_iff_ne, ne_eq, not_and, Decidable.not_not] at hc
+        simp only [List.mem_singleton]
+        have : ¬ (i < (ringMin : Int)) := fun hlt => hi (hc hlt)
+        have hr : (ringMin : Int) = 3 := by decide
+        omega
+  | lst l =>
+    simp only [intOrListRing, validateRingList] at h
+    split at h
+    · cases h
+    · split at h
+      · cases h
+      · cases h
+        rename_i hc _
+        right
+        intro h0
+        obtain ⟨x, hx, hle⟩ := mem_map_toNat_zero _ h0
+        rw [mem_sortI] at hx
+        simp only [List.any_eq_true, decide_eq_true_eq, not_exists, not_and, Int.not_lt] at hc
+        have := hc x hx
+        have hr : (ringMin : Int) = 3 := by decide
+        omega
+
+theorem buildExt_wf (p : Parsed) (rad : Bool) (k : QKind) (q : QAtom) (h : buildExt p rad k = .ok q) : QWF q := by
+  unfold buildExt at h
+  split at h
+  · cases h
+  · split at h
+    · cases h
+    · split at h
+      · cases h
+      · split at h
+        · cases h
+        · rename_i rs hrs
+          split at h
+          · cases h
+          · cases h
+            unfold QWF
+            simp only
+            unfold ringField at hrs
+            cases hp : p.ringSizes with
+            | none => simp [hp] at hrs; subst hrs; right; simp
+            | some v => simp [hp] at hrs; exact ring_setter_wf v rs hrs
 
 end ChythonModel.Proofs.C08
